@@ -19,7 +19,7 @@ let head_int head key def =
   !r
 
 (* ------------------------------------------------------------------ admission *)
-type tok = TAdd of char * int * int | TDone of int | TBan of int | TTick of int | TBad
+type tok = TAdd of char * int * int | TDone of int | TDisc of int | TBan of int | TTick of int | TBad
 
 let parse_adm_tok e =
   let n = String.length e in
@@ -31,6 +31,7 @@ let parse_adm_tok e =
          if p > 0 && h >= 0 && h < 300 then TAdd (e.[1], p, h) else TBad
        | _ -> TBad)
     else if n >= 3 && e.[0] = 'X' && e.[1] = '.' then TDone (int_of_string (String.sub e 2 (n - 2)))
+    else if n >= 3 && e.[0] = 'C' && e.[1] = '.' then TDisc (int_of_string (String.sub e 2 (n - 2)))
     else if n >= 2 && e.[0] = 'B' then
       (let h = int_of_string (String.sub e 1 (n - 1)) in if h >= 0 && h < 300 then TBan h else TBad)
     else if n >= 2 && e.[0] = 'T' then
@@ -66,6 +67,10 @@ let adm_events (toks : string list) =
         (match Hashtbl.find_opt specs p with
          | Some (k, h) -> (`Done, Some (Peers.Done (mk_peer k p h)), !clock)
          | None -> (`Bad, None, !clock))
+      | TDisc p ->
+        (match Hashtbl.find_opt specs p with
+         | Some (k, h) -> (`Disc, Some (Peers.Disc (mk_peer k p h)), !clock)
+         | None -> (`Bad, None, !clock))
       | TBan h -> (`Ban, Some (Peers.Ban (zi h, zi !clock)), !clock)
       | TTick k -> clock := !clock + k; (`Tick, None, !clock)
       | TBad -> (`Bad, None, !clock)) toks in
@@ -92,17 +97,14 @@ let adm_model head toks =
   let c = adm_cfg head in
   let evs, _ = adm_events toks in
   let s = ref Peers.init in
-  let hist = ref [] in
   let out = smap (fun (kind, ev, clock) ->
       let tag = match kind, ev with
-        | `Add, Some (Peers.Add (p, _) as e) ->
-          let (s', d) = Peers.step c !s e in s := s';
-          (* Connected(): a refused peer is disconnected by the handler; a peer that was delivered to
-             Done before has disconnected already *)
-          let gone = Peers.was_done !hist p.Peers.pid in
-          hist := !hist @ [e];
-          if d then (if gone then "a10" else "a11") else "a00"
-        | `Done, Some e -> let (s', _) = Peers.step c !s e in s := s'; hist := !hist @ [e]; "x"
+        | `Add, Some e ->
+          (* Connected() after the call: an admitted peer is connected; a refused one was
+             disconnected by the handler or had disconnected before *)
+          let (s', d) = Peers.step c !s e in s := s'; if d then "a11" else "a00"
+        | `Done, Some e -> let (s', _) = Peers.step c !s e in s := s'; "x"
+        | `Disc, Some e -> let (s', _) = Peers.step c !s e in s := s'; "c"
         | `Ban, Some e -> let (s', _) = Peers.step c !s e in s := s'; "b"
         | `Tick, _ -> "t"
         | _ -> "?" in
@@ -151,13 +153,13 @@ let adm_spec head toks obs =
               (match kind, ev with
                | `Add, Some e ->
                  if String.length tag <> 3 || tag.[0] <> 'a' then failwith "tag";
-                 (* a rejected peer must have been disconnected by the handler, an admitted one must
-                    be connected (an admitted peer that is not connected is reported by the oracle
-                    as admitted-after-it-left when it had been delivered to Done before) *)
-                 let gone = (match e with Peers.Add (p, _) -> Peers.was_done (Stdlib.List.rev !mevs) p.Peers.pid | _ -> false) in
+                 (* a refused peer must be disconnected afterwards, an admitted one connected; an
+                    admitted peer that had disconnected before is left to the oracle (class
+                    admitted-after-it-left) *)
+                 let gone = (match e with Peers.Add (p, _) -> Peers.was_disc (Stdlib.List.rev !mevs) p.Peers.pid | _ -> false) in
                  if tag.[1] <> tag.[2] && not (tag = "a10" && gone) then failwith "connected";
                  mevs := e :: !mevs; mobs := ((tag.[1] = '1'), o) :: !mobs
-               | (`Done | `Ban), Some e -> mevs := e :: !mevs; mobs := (false, o) :: !mobs
+               | (`Done | `Ban | `Disc), Some e -> mevs := e :: !mevs; mobs := (false, o) :: !mobs
                | _ -> ())) pairs;
         match Peers.check_trace c peers [] Peers.empty_ost (Stdlib.List.rev !mevs) (Stdlib.List.rev !mobs) with
         | Peers.VOk -> "OK"
@@ -172,6 +174,7 @@ let parse_cm_tok e =
   try
     if e = "E" then Some ConnMgr.SE
     else if e = "Z" then Some ConnMgr.SZ
+    else if e = "C" then Some ConnMgr.SC
     else if n >= 2 then
       let v = strict_int (String.sub e 1 (n - 1)) in
       if v < 0 then None else
@@ -215,22 +218,27 @@ let cm_spec head toks obs =
   else
     try
       let res = ref "OK" in
+      let cancels = ref 0 in
       Stdlib.List.iteri (fun idx w ->
           if !res = "OK" then
             match Stdlib.String.index_opt w ':' with
             | None -> failwith "word"
             | Some i ->
               let tag = String.sub w 0 i and d = String.sub w (i + 1) (String.length w - i - 1) in
+              if tag = "C" then incr cancels;
               (match split_on '/' d with
                 | [o; wq; dl; n; b] ->
                   let num s = strict_int (String.sub s 1 (String.length s - 1)) in
                   let dsum = Stdlib.List.fold_left (fun acc (_, v) -> acc + iz v) 0 (parse_kv (String.sub dl 1 (String.length dl - 1))) in
-                  (match int_of_nat (ConnMgr.cm_check (zi t) (zi (num o)) (zi (num wq)) (zi dsum) (zi (num b))) with
+                  (match int_of_nat (ConnMgr.cm_check (zi t) (zi (num o)) (zi (num wq)) (zi dsum) (zi !cancels)) with
                    | 0 -> if tag = "!" then res := Printf.sprintf "FAIL reaction-missing step %d: the manager did not react within the bound" idx
                    | 1 -> res := Printf.sprintf "FAIL above-target step %d: %s" idx d
-                   | 2 -> res := Printf.sprintf "FAIL slot-lost-after-address-ban step %d: %s (target %d)" idx d t
                    | 4 -> res := Printf.sprintf "FAIL too-many-requests step %d: %s" idx d
-                   | _ -> res := Printf.sprintf "FAIL slot-lost step %d: %s (target %d)" idx d t)
+                   | _ ->
+                     (* the class names the cause when the implementation reports an address ban *)
+                     if num b > 0 && num o + num wq + dsum + num b + !cancels >= t
+                     then res := Printf.sprintf "FAIL slot-lost-after-address-ban step %d: %s (target %d)" idx d t
+                     else res := Printf.sprintf "FAIL slot-lost step %d: %s (target %d)" idx d t)
                 | _ -> failwith "digest")) ws;
       !res
     with Failure m -> "FAIL malformed-observable " ^ m
